@@ -133,7 +133,7 @@ def finding_handlers(run, shoot):
         return mh.witness_outcome(run, shoot, w, check)
     return {"K_map_src_named_qualified": generic, "K_map_submap_nonstruct": generic, "K_map_alias_all_pkgs": generic,
             "K_map_roundtrip_nil_embed": generic, "K_map_fanout_target": generic, "K_map_nested_tag_ignored": generic,
-            "K_map_dash_accessor": generic, "K_map_ctor_from_tag": generic,
+            "K_map_dash_accessor": generic, "K_map_ctor_from_tag": generic, "K_map_mapper_ptr_embedded": generic,
             "K_map_universe_panic": universe}
 
 
